@@ -160,8 +160,12 @@ def gen_b(R):
     hold_off = R.choice([None, None, 0, 20.2, 45.2])  # never ties with the 0.5 s occurrence grid
     ops = []
     for _ in range(R.int(3, 14)):
-        gap = R.choice([0.5, 3.0, 10.5, 19.5, 20.5, 31.0, 44.5, 45.5, 61.0])
+        gap = R.choice([0.0, 0.0, 0.5, 3.0, 10.5, 19.5, 20.5, 31.0, 44.5, 45.5, 61.0])  # 0.0 = back-to-back, no yield in between
         k = R.weighted([(6, "occ"), (2, "guard"), (1, "direct")])
+        # back-to-back only between occurrences: a guard entity changed in the same instant is read at
+        # evaluation time by design (the documentation's "current value")
+        if gap == 0.0 and (not ops or ops[-1][1] != "occ" or k != "occ"):
+            gap = 0.5
         if k == "occ":
             ops.append([gap, "occ", R.choice(["1", "2", "3"])])
         elif k == "guard":
@@ -210,9 +214,10 @@ async def exec_b(case):
         world = {"pyscript.g": "1", "pyscript.v": "1"}
         occs = []  # (rel time, event dict) in model order
         t = 0.25
-        for gap, op, arg in case["ops"]:
+        for idx, (gap, op, arg) in enumerate(case["ops"]):
             t += gap
-            await it.sleep_until(t0 + t)
+            if gap > 0:
+                await it.sleep_until(t0 + t)
             if op == "occ":
                 if case["trig"] == "event":
                     it.fire("ev", {"n": arg})
@@ -230,7 +235,8 @@ async def exec_b(case):
             else:
                 it.fire("direct", {})
                 occs.append((t, {"direct": True}))
-            await it.settle(1)
+            if idx + 1 >= len(case["ops"]) or case["ops"][idx + 1][0] > 0:
+                await it.settle(1)
         end = t + 1.0
         await it.sleep_until(t0 + end)
         runs = [(round(vt - t0, 3), a[1]) for vt, a, kw in it.records if a[0] == "run"]
